@@ -44,6 +44,7 @@ RULE += (' Histories with sortby (in-memory entries): the one list of sort '
          'one (reversed / rotated, attrs carried over) is compared again with '
          'the same keys and must pass.')
 RULE += ' ' + 'Round 7: a quarter of the cell_big edits move one instant by 1 ns to 0.999 s in a datetime column (added when the frame has none); tz-aware datetime columns (dttz); datetime columns retyped to microsecond resolution or to an object column of Timestamps.'
+RULE += ' ' + "Round 8: sort keys given as a function of the frame (its first column: the reference's); one case in twenty compares frames of 257-600 integer columns whose last row differs in 0 / 1 / 255 / 256 / 257 / 512 cells."
 ASSUMPTIONS = ['type_matching levels: strict = same dtype name; medium also '
                'ignores bit width and nullability within int / float / bool '
                'and lets object stand for string; permissive also lets int, '
